@@ -255,6 +255,30 @@ def gen_conv(tmp):
             "namespace H4.Gen.Conv\n\ndef table : List (Nat × Nat × Nat) := [\n  " + ",\n  ".join(rows) + "]\n\nend H4.Gen.Conv\n")
 
 
+# function bodies translated statement by statement into Lean (gen/c2lean.py): (unit, C file, [functions], options)
+# The equivalence theorems H4/Props/C*Fn.lean prove that each translated function computes its hand-written model
+# (and stays inside its arrays, divides by nothing that is zero, terminates); a change of the C text changes the
+# generated definition and the theorem is re-checked against it.
+FNUNITS = [
+    ("Hchunks", "hdf/src/hchunks.c",
+     ["update_chunk_indices_seek", "compute_chunk_to_array", "compute_array_to_seek", "calculate_seek_in_chunk",
+      "update_seek_pos_chunk", "calculate_chunk_num", "calculate_chunk_for_chunk"], {}),
+]
+
+
+def gen_fnunits(files):
+    import c2lean
+    for unit, cfile, fns, opts in FNUNITS:
+        try:
+            txt, _ = c2lean.translate_unit(repo, bdir, unit, cfile, fns, opts)
+        except c2lean.Unsupported as e:
+            # only the properties whose theorems import this unit lose their proof: the file is made ill-typed on purpose
+            msg = str(e).replace('"', "'").replace("\n", " ")[:600]
+            txt = ("/- GENERATED by /verif/gen/c2lean.py: TRANSLATION FAILED, the C text of %s left the supported subset. -/\n"
+                   "namespace H4.Gen.Fn.%s\n\ndef c2lean_translation_failed : Nat := \"C2LEAN FAILURE: %s\"\n\nend H4.Gen.Fn.%s\n" % (cfile, unit, msg, unit))
+        files["Fn/%s.lean" % unit] = txt
+
+
 def fail(msg):
     print("TIE-A FAILURE: " + msg)
     sys.exit(1)
@@ -556,11 +580,14 @@ def main():
         files["Conv.lean"] = gen_conv(tmp)
         files["Tools.lean"] = gen_textconsts(tmp)
         files["Tools.lean"] = gen_textconsts(tmp)
+    sys.path.insert(0, os.path.dirname(os.path.abspath(__file__)))
+    gen_fnunits(files)
     files["Macros.lean"] = gen_macros(known)
     files["Src.lean"] = gen_flags_exprs(known)
     digest = {}
     for fn, txt in files.items():
         p = os.path.join(outdir, fn)
+        os.makedirs(os.path.dirname(p), exist_ok=True)
         if not os.path.exists(p) or open(p).read() != txt:
             open(p, "w").write(txt)
         digest[fn] = hashlib.sha256(txt.encode()).hexdigest()[:16]
